@@ -74,11 +74,11 @@ def load_already_processed_files_in_directory(directory: Optional[str]) -> Set[s
     already_processed = set()
 
     if directory is not None:
-        file_pattern = r"(.+?)(\.logits|\.xml|\.jpg)"
+        file_pattern = r"(.+)(\.logits|\.xml|\.jpg)"
         regex = re.compile(file_pattern)
 
         for file in os.listdir(directory):
-            matched = regex.match(file)
+            matched = regex.fullmatch(file)  # the id is the whole name without its (last) extension
             if matched:
                 already_processed.add(matched.groups()[0])
 
